@@ -341,6 +341,34 @@ def load_known_findings():
     return known
 
 
+def match_known(prop, cls, payload, known=None):
+    """-> (sig, text) if this violation is a listed known finding, else None.
+
+    A signature is `class:<violation class>` optionally followed by `;contains:<text>` clauses (no
+    spaces; use `_` for a space) that must all occur in the JSON text of the *minimised* replay payload
+    (scenario + trace + detail).  So a finding is identified by its violation class *and* by the specific
+    call site / history that fails; another violation of the same property, or the same class elsewhere,
+    is still reported.  The file is read-only at run time."""
+    if known is None:
+        known = load_known_findings().get(prop, {})
+    if not known:
+        return None
+    text = json.dumps(payload, sort_keys=True, default=str)
+    for sig, desc in sorted(known.items()):
+        parts = sig.split(';')
+        ok = True
+        for part in parts:
+            if part.startswith('class:'):
+                ok = ok and part[6:] == cls
+            elif part.startswith('contains:'):
+                ok = ok and part[9:].replace('_', ' ') in text
+            else:
+                ok = False
+        if ok:
+            return sig, desc
+    return None
+
+
 class Counter(dict):
     """dict of ints with += on missing keys; merge() adds another one."""
     def inc(self, k, n=1):
